@@ -375,7 +375,11 @@ class DiagLayer:
             else:
                 break
             if -1 in prefix_tree:
-                possible_services += cast(List[DiagService], prefix_tree[-1])
+                for service in cast(List[DiagService], prefix_tree[-1]):
+                    # services exhibiting coding objects with nested
+                    # prefixes must only be considered once
+                    if not any(x is service for x in possible_services):
+                        possible_services.append(service)
         return possible_services
 
     def _decode(self, message: bytes, candidate_services: Iterable[DiagService]) -> List[Message]:
